@@ -281,7 +281,8 @@ def mutations(rng, lines, n):
     if nl == 0:
         return
     for _ in range(n):
-        kind = str(rng.choice(["delete", "duplicate", "swap", "subst", "overflow", "count", "delete_block", "blank", "intfield", "intfield"]))
+        kind = str(rng.choice(["delete", "duplicate", "swap", "subst", "overflow", "count", "delete_block", "blank", "intfield", "intfield",
+                               "empty_section", "empty_section"]))
         new = list(lines)
         i = int(rng.integers(nl))
         if kind == "delete":
@@ -319,6 +320,31 @@ def mutations(rng, lines, n):
                 val = int(words[k])
                 words[k] = str(int(rng.choice([val + 1, val - 1, -val, val * 2 + 1, 0]))).encode()
                 new[i] = b" " + b" ".join(words) + b"\n"
+        elif kind == "empty_section":
+            # one array / section of the file emptied while the rest stays intact: "N= 0" with its data lines removed (FCHK-like
+            # headers), the lines between <Tag> and </Tag> removed (WFX-like), a JSON array replaced by [] on its line
+            import re
+
+            heads = [k for k in range(nl) if re.search(rb"N=\s*\d+\s*$", new[k])]
+            tags = [k for k in range(nl) if re.match(rb"\s*<[^/!][^>]*>\s*$", new[k])]
+            arrs = [k for k in range(nl) if re.search(rb"\[[^\[\]]+\]", new[k])]
+            pools = [p for p in (heads, tags, arrs) if p]
+            if pools:
+                pool = pools[int(rng.integers(len(pools)))]
+                i = int(pool[int(rng.integers(len(pool)))])
+                if pool is heads:
+                    new[i] = re.sub(rb"N=\s*\d+\s*$", b"N=           0\n", new[i])
+                    j = i + 1
+                    while j < len(new) and not re.search(rb"[A-Za-z]{3}", new[j]):
+                        j += 1
+                    del new[i + 1:j]
+                elif pool is tags:
+                    j = i + 1
+                    while j < len(new) and not re.match(rb"\s*</", new[j]):
+                        j += 1
+                    del new[i + 1:j]
+                else:
+                    new[i] = re.sub(rb"\[[^\[\]]+\]", b"[]", new[i], count=1)
         elif kind == "count":
             i = int(rng.integers(min(nl, 12)))
             words = new[i].split()
